@@ -215,6 +215,28 @@ func (m *Model) blobDelete(h *Host, e *Entry) *Resp {
 func (m *Model) uploadLocation(h *Host, e *Entry, u *Upload) string {
 	loc := "/v2/" + u.Repo + "/blobs/uploads/" + u.ID
 	switch h.Feat.LocStyle {
+	case 4:
+		// the session moves into a deeper directory and every Location is path-relative
+		// to the URL of the request that is being answered (RFC 9110 §10.2.2)
+		u.State++
+		if e.Class == "upload-post" || e.Class == "upload-mount" || !strings.Contains(e.Path, "/part/") {
+			if strings.HasSuffix(e.Path, "/") {
+				return u.ID + "/part/" + strconv.Itoa(u.State) + "?state=s" + strconv.Itoa(u.State)
+			}
+			// request URL is .../uploads/<id> (or .../uploads): relative to its directory
+			if strings.HasSuffix(e.Path, "/uploads") {
+				return "uploads/" + u.ID + "/part/" + strconv.Itoa(u.State) + "?state=s" + strconv.Itoa(u.State)
+			}
+			return u.ID + "/part/" + strconv.Itoa(u.State) + "?state=s" + strconv.Itoa(u.State)
+		}
+		return strconv.Itoa(u.State) + "?state=s" + strconv.Itoa(u.State)
+	case 5:
+		// the session is handed to an upload backend host; later Locations are absolute-path references
+		u.State++
+		if h.Feat.UploadBackend != "" && e.Host != h.Feat.UploadBackend {
+			return "https://" + h.Feat.UploadBackend + loc + "?state=s" + strconv.Itoa(u.State)
+		}
+		return loc + "?state=s" + strconv.Itoa(u.State)
 	case 1:
 		loc = e.Scheme + "://" + h.Name + loc
 	case 2:
@@ -286,7 +308,20 @@ func (m *Model) uploadPost(h *Host, e *Entry, req *http.Request) *Resp {
 }
 
 func (m *Model) findUpload(h *Host, e *Entry, req *http.Request) (*Upload, *Resp) {
-	u, ok := h.Uploads[e.Ref]
+	id := e.Ref
+	if i := strings.IndexByte(id, '/'); i >= 0 {
+		id = id[:i]
+	}
+	u, ok := h.Uploads[id]
+	if ok && h.Feat.LocStyle == 4 && u.State > 0 {
+		// only the latest relocated URL is valid
+		if want := u.ID + "/part/" + strconv.Itoa(u.State); e.Ref != want {
+			return nil, errResp(404, "BLOB_UPLOAD_UNKNOWN", "upload moved to "+want)
+		}
+	}
+	if ok && h.Feat.LocStyle == 5 && h.Feat.UploadBackend != "" && e.Host != h.Feat.UploadBackend {
+		return nil, errResp(404, "BLOB_UPLOAD_UNKNOWN", "upload lives on "+h.Feat.UploadBackend)
+	}
 	if !ok || u.Repo != e.Repo {
 		return nil, errResp(404, "BLOB_UPLOAD_UNKNOWN", "upload unknown")
 	}
@@ -409,7 +444,11 @@ func (m *Model) uploadPut(h *Host, e *Entry, req *http.Request) *Resp {
 }
 
 func (m *Model) uploadDelete(h *Host, e *Entry, req *http.Request) *Resp {
-	u, ok := h.Uploads[e.Ref]
+	id := e.Ref
+	if i := strings.IndexByte(id, '/'); i >= 0 {
+		id = id[:i]
+	}
+	u, ok := h.Uploads[id]
 	if !ok || u.Repo != e.Repo {
 		return errResp(404, "BLOB_UPLOAD_UNKNOWN", "upload unknown")
 	}
